@@ -18,12 +18,21 @@
     tree, keeps allocation state and invariant, `Online` restores the counter to exactly the
     free frames of the tree; `offline_no_slot` — no local reservation names an unreserved tree.
 
-  PARTIAL: the composed statement "no allocation of any kind returns a frame of an offline tree
-  until it is online again, for every history" (every allocation path first takes the frames
-  from the tree's entry or from a slot naming it) is not stated as one theorem; carried by the
-  change-heavy correspondence histories with the offline oracle.
+  * `offline_never_allocated` — **the composed statement, for every history**: in every state
+    satisfying the upper invariant (every state of every sequential history of a constructed
+    allocator) a tree whose counter is 0 and that is not reserved — a tree taken offline and not
+    yet online again — is never allocated from: no `get`, with or without a target frame,
+    through any slot, on any path (own reservation, sync, search, steal, demote), returns one of
+    its frames. It follows without a walk through the paths from *exact accounting*
+    (`UpperInv.counter`: tree counter + reservations + hidden frames `H i` = free frames of the
+    tree, with the same `H` before and after an allocation): `allocation_paid_by_tree` — the
+    counters of the tree of a returned block covered the block before the call;
+  * `change_tree_spec` also says what happens to the hidden amounts: `Offline` moves the counter
+    into `H i`, a successful `Online` sets `H i = 0` (exact restoration), nothing else changes `H`.
+  The fast free count excludes exactly the hidden frames: C04 `fast_counters_exact`.
 -/
 import LLFreeV.Proofs.UpperInit
+import LLFreeV.Proofs.UpperPays
 namespace LLFree.C15
 open LLFree
 
@@ -109,7 +118,7 @@ theorem offline_blocks_sync (t : Tree) (min : Nat) (hr : t.reserved = false) : t
     (its frames are hidden: the fast count excludes them, C04.fast_counters_exact); a
     successful `Online` restores the counter to exactly the free frames of the tree (the tree
     leaves the hidden set). -/
-theorem change_tree_spec (c : Cfg) (ok : CfgOk c) (H : Nat → Prop) (m : Mem) (inv : UpperInv0 c H m)
+theorem change_tree_spec (c : Cfg) (ok : CfgOk c) (H : Nat → Nat) (m : Mem) (inv : UpperInv0 c H m)
     (mid mcls : Option Nat) (mfree : Nat) (ccls : Option Nat) (op : Option Tree.Op) (hccls : ∀ k, ccls = some k → k < 8) :
     Runs m (changeTree c mid mcls mfree ccls op) (fun res m' =>
       (res ≠ .ok () → m = m') ∧ ∃ H' i, ChangePost c H H' m m' i op res ∧ (∀ j, mid = some j → i = j)) :=
@@ -118,7 +127,7 @@ theorem change_tree_spec (c : Cfg) (ok : CfgOk c) (H : Nat → Prop) (m : Mem) (
 /-- an offline tree (unreserved, counter 0) is not usable for any allocation path through the
     tree array: `steal`, `reserve_or_steal` and `sync` refuse it (above), and no slot names it
     (`UpperInv.slotTree`: slots name reserved trees only). -/
-theorem offline_no_slot (c : Cfg) (H : Nat → Prop) (m : Mem) (inv : UpperInv0 c H m) (i : Nat) (t : Tree)
+theorem offline_no_slot (c : Cfg) (H : Nat → Nat) (m : Mem) (inv : UpperInv0 c H m) (i : Nat) (t : Tree)
     (ht : m.trees[i]? = some t) (hr : t.reserved = false) (s : Nat) (l : LTree) (hl : m.slots[s]? = some l)
     (hp : l.present = true) : l.row / c.geom.treeRows ≠ i := by
   intro e
@@ -126,5 +135,21 @@ theorem offline_no_slot (c : Cfg) (H : Nat → Prop) (m : Mem) (inv : UpperInv0 
   obtain ⟨t', ht', hr', _⟩ := inv.slotTree s l k hl hp hk
   rw [e, ht] at ht'; cases ht'
   rw [hr] at hr'; cases hr'
+
+/-- the counters of the tree of a returned block covered the block before the call -/
+theorem allocation_paid_by_tree (c : Cfg) (ok : CfgOk c) (H : Nat → Nat) (m : Mem) (inv : UpperInv0 c H m) (frame : Option Nat)
+    (r : Request) (hcls : r.cls < 8) (hloc : r.locOk c) (hv : C08.ArgsValid c (frame.getD 0) r) :
+    Runs m (get c frame r) (fun res m' => UpperInv0 c H m' ∧ GetOutcome c m r.order frame res m' ∧
+      ∀ f k, res = .ok (f, k) → ∀ t : Tree, m.trees[f / c.geom.treeFrames]? = some t →
+        2 ^ r.order ≤ t.free + m.slotFree c.geom.treeRows (f / c.geom.treeFrames)) :=
+  get_pays ok inv frame r hcls hloc hv
+
+/-- **An offline tree is never allocated from, in any state of any history.** -/
+theorem offline_never_allocated (c : Cfg) (ok : CfgOk c) (H : Nat → Nat) (m : Mem) (inv : UpperInv0 c H m) (frame : Option Nat)
+    (r : Request) (hcls : r.cls < 8) (hloc : r.locOk c) (hv : C08.ArgsValid c (frame.getD 0) r) (i : Nat) (t : Tree)
+    (ht : m.trees[i]? = some t) (hfree : t.free = 0) (hres : t.reserved = false) :
+    Runs m (get c frame r) (fun res m' => UpperInv0 c H m' ∧ GetOutcome c m r.order frame res m' ∧
+      ∀ f k, res = .ok (f, k) → f / c.geom.treeFrames ≠ i) :=
+  LLFree.offline_never_allocated ok inv frame r hcls hloc hv i t ht hfree hres
 
 end LLFree.C15
